@@ -9,6 +9,7 @@ import (
 
 	"github.com/nspcc-dev/neofs-node/pkg/local_object_storage/blobstor/common"
 	storagelog "github.com/nspcc-dev/neofs-node/pkg/local_object_storage/internal/log"
+	"github.com/nspcc-dev/neofs-node/pkg/util/verifhook"
 	apistatus "github.com/nspcc-dev/neofs-sdk-go/client/status"
 	oid "github.com/nspcc-dev/neofs-sdk-go/object/id"
 	"go.uber.org/zap"
@@ -53,6 +54,7 @@ func (c *cache) flushScheduler() {
 			return
 		case <-tick.C:
 		}
+		verifhook.Point("writecache.sched.round", c.path)
 
 		if c.objCounters.Size() == 0 {
 			continue
@@ -97,6 +99,7 @@ func (c *cache) flushScheduler() {
 						}
 						break addrLoop
 					case c.flushCh <- b:
+						verifhook.Point("writecache.sched.sent", c.path, b)
 					case <-c.closeCh:
 						return
 					}
@@ -157,6 +160,7 @@ func (c *cache) flushWorker(id int) {
 				zap.Stringer("first_object", addrs[0]),
 				zap.Error(err))
 		}
+		verifhook.Point("writecache.worker.done", c.path)
 	}
 }
 
